@@ -223,6 +223,12 @@ def sheet_items(sheet):
     return out
 
 
+def ns_info(sheet):
+    """(index, prefix, URI, type of the first seq item) of every @namespace rule"""
+    return [(i, r.prefix, r.namespaceURI, r.seq[0].type if len(r.seq) else None)
+            for i, r in enumerate(sheet.cssRules) if r.type == r.NAMESPACE_RULE]
+
+
 def used_uris(items):
     return {v[0] for rule in items for sel in rule for t, v in sel if isinstance(v, tuple) and isinstance(v[0], str)}
 
@@ -319,6 +325,7 @@ class C15(Check):
             pre_sheet = im.sheet
             pre_items = sheet_items(pre_sheet)
             pre_map = dict(pre_sheet.namespaces.items())
+            pre_map['#ns'] = ns_info(pre_sheet)
             outcome = im.apply(op)
             post = canon_state(c, im.sheet)
             done.append(G.to_json_op(op))
@@ -339,8 +346,11 @@ class C15(Check):
         """returns the id of a known finding when this step entered its region (the rest of the history is
         then only used for the correspondence), else None"""
         sheet = im.sheet
+        pre_map = dict(pre_map)
+        pre_ns = pre_map.pop('#ns')
         wit = {'ops': list(done)}
         bad = []
+        soft = []        # (clause, detail, finding id): violations inside a state-defined region, no taint
         if outcome.startswith('exc:'):
             bad.append(('a namespace operation raises only documented DOM exceptions', {'outcome': outcome}))
         pairs = sheet_pairs(sheet)
@@ -378,15 +388,28 @@ class C15(Check):
                 bad.append(('reparse of cssText gives the same namespace declarations',
                             {'cssText': text.decode('utf-8', 'replace'), 'mapping': mapping,
                              'reparsed': dict(again.namespaces.items())}))
-            elif sheet_items(again) != items:
-                bad.append(('the serialisation of every selector re-resolves to the same (URI, name) pairs',
-                            {'cssText': text.decode('utf-8', 'replace'), 'items': items,
-                             'reparsed_items': sheet_items(again)}))
+            else:
+                items2 = sheet_items(again)
+                diffs = item_diffs(items, items2)
+                if diffs is None:
+                    bad.append(('the serialisation of every selector re-resolves to the same (URI, name) pairs',
+                                {'cssText': text.decode('utf-8', 'replace'), 'items': items, 'reparsed_items': items2}))
+                else:
+                    for a, b in diffs:
+                        kid = KnownRegions.item_region(mapping, a)
+                        det = {'cssText': text.decode('utf-8', 'replace'), 'item': a, 'reparsed_item': b}
+                        clause = 'the serialisation of every selector re-resolves to the same (URI, name) pairs'
+                        if kid:
+                            soft.append((clause, det, kid))
+                        else:
+                            bad.append((clause, det))
         except xml.dom.DOMException as e:
             bad.append(('reparse of cssText gives the same namespace declarations', {'exception': repr(e)}))
+        for clause, detail, kid in soft:
+            ctx.violate(clause, wit, detail, known=kid)
         if not bad:
             return None
-        kid = self.kf.classify(op, pre, pre_map, pre_items, outcome, post)
+        kid = self.kf.classify(op, pre_map, pre_ns, outcome, pre != post)
         for clause, detail in bad:
             ctx.violate(clause, wit, detail, known=kid)
         return kid or 'unattributed'
@@ -441,8 +464,7 @@ class C15(Check):
             return [(i.type, i.value) for i in s.seq] != [(i.type, i.value) for i in s2.seq]
         probe = Probe()
         self.replay_ops(probe, c, [G.from_json_op(o) for o in w['ops']])
-        return any(k == finding['id'] for _, _, _, k in probe.v) or \
-            (finding.get('clause') is None and bool(probe.v))
+        return any(k == finding['id'] for _, _, _, k in probe.v)
 
     def replay_ops(self, ctx, c, ops):
         im = Impl(c)
@@ -453,6 +475,7 @@ class C15(Check):
             pre = canon_state(c, im.sheet)
             pre_items = sheet_items(im.sheet)
             pre_map = dict(im.sheet.namespaces.items())
+            pre_map['#ns'] = ns_info(im.sheet)
             outcome = im.apply(op)
             post = canon_state(c, im.sheet)
             done.append(G.to_json_op(op))
@@ -500,13 +523,84 @@ class Probe:
         pass
 
 
+def item_diffs(items, items2):
+    """pairs (item, reparsed item) that differ; None when the shapes differ"""
+    if len(items) != len(items2):
+        return None
+    out = []
+    for r1, r2 in zip(items, items2):
+        if len(r1) != len(r2):
+            return None
+        for s1, s2 in zip(r1, r2):
+            if len(s1) != len(s2):
+                return None
+            for a, b in zip(s1, s2):
+                if a != b:
+                    out.append((a, b))
+    return out
+
+
 class KnownRegions:
-    """region predicates of the findings listed in known/C15.json (filled in below)"""
-    def classify(self, op, pre, pre_map, pre_items, outcome, post):
+    """region predicates of the findings listed in known/C15.json"""
+
+    @staticmethod
+    def item_region(mapping, item):
+        """state-defined regions: the stored item cannot be written back with the current mapping"""
+        t, v = item
+        if not isinstance(v, tuple):
+            return None
+        ns = v[0]
+        dflt = mapping.get('')
+        if ns is None and dflt is not None and t in ('type-selector', 'universal', 'negation-type-selector'):
+            return 'C15-default-added-later'
+        if t == 'attribute-selector' and isinstance(ns, str) and dflt is not None and ns == dflt:
+            return 'C15-attribute-in-default-namespace'
+        return None
+
+    def classify(self, op, pre_map, pre_ns, outcome, changed):
+        """operation-defined regions: (operation, state before it) -> finding id"""
+        k = op[0]
+        if k == 'setprefix':
+            i, q = op[1], op[2]
+            if any(j != i and p == q for j, p, u, t0 in pre_ns):
+                return 'C15-prefix-setter-collision'
+            if any(j == i and t0 != 'prefix' for j, p, u, t0 in pre_ns):
+                return 'C15-prefix-setter-seq'
+        if k == 'setns':
+            p, u = op[1], op[2]
+            same = [x for x in pre_ns if x[1] == p]
+            if same and same[-1][3] != 'prefix' and outcome.startswith('ok') and u in pre_map.values():
+                return 'C15-prefix-setter-seq'
+        if k in ('insns',) and outcome == 'err:NoModificationAllowedErr' and changed and \
+                any(p == op[1] and u != op[2] for _, p, u, _ in pre_ns):
+            return 'C15-insert-before-same-prefix'
+        if k == 'insobj':
+            d = dict(op[2])
+            uris = set()
+            for sel in op[1]:
+                for it in sel:
+                    if it[0] == 'q' and isinstance(it[2], tuple):
+                        uris.add(d[it[2][1]])
+                    elif it[0] == 'q' and it[2] == 'N' and it[1] != 'a' and '' in d:
+                        uris.add(d[''])
+            if any(u != '' and u not in pre_map.values() for u in uris):
+                return 'C15-foreign-style-rule'
+        if k == 'parse':
+            if op[1]:
+                return 'C15-tuple-namespaces'
+            kinds = [r[1] if r[0] == 'other' else r[0] for r in op[2]]
+            if 'variables' in kinds and 'ns' in kinds[kinds.index('variables'):]:
+                return 'C15-namespace-after-variables'
+        if k in ('delns', 'delrule', 'insns', 'insnstext', 'setns') and any(u == '*' for _, p, u, _ in pre_ns):
+            return 'C15-star-uri'
         return None
 
     @staticmethod
     def detached(d, items):
+        for it in items:
+            k = KnownRegions.item_region(d, it)
+            if k:
+                return k
         return None
 
 
